@@ -20,7 +20,8 @@ class Family:
     """a parametrised template: fn(ctx, *args) runs the oracle and the real library on inputs that
     are affine functions of ctx.param(...) values and states the property through ctx.require"""
 
-    def __init__(self, name, fn, args=(), must_reach=(), budget_s=None, tags=()):
+    def __init__(self, name, fn, args=(), must_reach=(), budget_s=None, tags=(), timeout_ms=None):
+        self.timeout_ms = timeout_ms
         self.name, self.fn, self.args = name, fn, tuple(args)
         self.must_reach = tuple(must_reach)
         self.budget_s = budget_s
@@ -55,12 +56,19 @@ class SymCtx:
     def lib(self, x):
         return x
 
+    def fp_lattice(self, name, lo, hi, den=4):
+        """binary64 value k/den, k an integer solver variable (bit-precise FP64 domain); returns (value, k)"""
+        from . import fp64
+        self.pinfo[name] = ('lattice', lo, hi, den)
+        v, z = fp64.lattice(self.eng, name, lo, hi, den)
+        return v, z
+
     def assume(self, cond):
         if isinstance(cond, bool):
             if not cond:
                 raise Infeasible()
             return
-        self.eng.assume(cond.z)
+        self.eng.assume(cond.z if hasattr(cond, 'z') else cond)
 
     def band(self, q, scale=1):
         """admissibility: the incidence quantity q is exactly 0 or at least MARGIN*scale away"""
@@ -107,6 +115,9 @@ class SymCtx:
         out = {}
         for name, vid in self.eng.params.items():
             v = model.eval(self.eng.vars[vid]['z'], model_completion=True)
+            if self.eng.vars[vid]['kind'] == 'bv':
+                out[name] = Fraction(v.as_signed_long())
+                continue
             out[name] = _frac(v)
         return out
 
@@ -135,6 +146,12 @@ class ConcCtx:
         if isinstance(x, Fraction):
             return float(x)
         return x
+
+    def fp_lattice(self, name, lo, hi, den=4):
+        k = self.vals[name]
+        if k.denominator != 1 or not (lo <= k <= hi):
+            raise Inadmissible('lattice parameter %s' % name)
+        return float(k) / den, int(k)
 
     def assume(self, cond):
         if not cond:
@@ -323,6 +340,12 @@ def explore(fam, tier='quick', budget_s=60, timeout_ms=3000, slow_ms=20000, max_
                     res['validated'] += 1
                     if len(res['samples']) < 3:
                         res['samples'].append(dict(params={k: str(v) for k, v in vals.items()}, outcome=sym_out))
+                elif c['status'] == 'violation':
+                    # the real (float) library breaks the property on the witness although the exact-real model does
+                    # not: a genuine, already reproduced violation found by the witness replay
+                    res['violations'].append(dict(sig=c['violations'][0][0], detail=str(c['violations'][0][1])[:300], family=fam.fid,
+                                                  replayed=True, params={k: str(v) for k, v in vals.items()},
+                                                  concrete_detail='found by float replay of a path witness (exact-real model passes)'))
                 else:
                     res['diverged'].append(dict(params={k: str(v) for k, v in vals.items()}, symbolic=sym_out,
                                                 concrete=c['outcomes'], concrete_status=c['status'],
@@ -374,7 +397,7 @@ def _worker(args):
     fams = mod.families(opts['tier'], opts['seed'])
     fam = fams[idx]
     try:
-        return explore(fam, tier=opts['tier'], budget_s=fam.budget_s or opts['budget_s'], timeout_ms=opts['timeout_ms'],
+        return explore(fam, tier=opts['tier'], budget_s=fam.budget_s or opts['budget_s'], timeout_ms=fam.timeout_ms or opts['timeout_ms'],
                        slow_ms=opts['slow_ms'])
     except BaseException as e:
         return dict(family=fam.fid, paths=0, undecided=1, violations=[], outcomes={}, validated=0, diverged=[],
